@@ -176,6 +176,44 @@ static size_t batch_gen(long idx, uint8_t *payload, char *human, size_t hn) {
 	return sizeof b;
 }
 
+
+/* ---------------------------------------------------------------- c01.shrink: the capacity shrinks while messages are batched
+ * announce A in {100,128,200,255}; two sends without flush; announce B < A (0, 64, 65, 100, 129); a third send; flush.
+ * Every combination of the eight size classes.  Oracle as in c01.batch (exactly once in order; a packet with several messages
+ * never exceeds the capacity in force when each further message was added). */
+static void shrink_child(const void *job, size_t n) {
+	vs_dev_t devs[VS_MAXDEV]; int nd; size_t pl; const uint8_t *p = job_parse(job, n, devs, &nd, &pl);
+	static const int CA[4] = {100, 128, 200, 255}, CB[5] = {0, 64, 65, 100, 129};
+	int A = CA[p[0] % 4], s1 = p[0] / 4;
+	hx_child_begin(NULL, 0, 0, NULL, 0, 0);
+	if (hx_start_debug(0)) res_infra("start failed");
+	hx_quiesce();
+	bidib_set_lowlevel_debug_mode(false);
+	static rc_pkt_t pk[16]; hx_hash_t h; hx_hash_init(&h); long cases = 0;
+	for (int s2 = 0; s2 < 8; s2++) for (int bi = 0; bi < 5; bi++) for (int s3 = 0; s3 < 8; s3++) {
+		int B = CB[bi]; if (B >= A) continue;
+		int sz[3] = {SIZES[s1], SIZES[s2], SIZES[s3]}; int cap_at[3]; uint8_t exp[3][140]; int el[3];
+		announce(0); announce((uint8_t) A); int cap_now = A;
+		for (int i = 0; i < 3; i++) {
+			if (i == 2) { announce((uint8_t) B); cap_now = B > 64 ? B : 64; }
+			uint8_t addr[4] = {(uint8_t) (1 + i % 2), 0, 0, 0}; uint8_t data[130]; int dlen = sz[i] - 5; for (int k = 0; k < dlen; k++) data[k] = (uint8_t) (0x50 + i);
+			el[i] = rc_build_msg(exp[i], addr, (uint8_t) next_seq(addr), ZERO_RESP_TYPE, data, dlen);
+			if (dlen) bidib_buffer_message_with_data(addr, ZERO_RESP_TYPE, (uint8_t) dlen, data, 0); else bidib_buffer_message_without_data(addr, ZERO_RESP_TYPE, 0);
+			cap_at[i] = cap_now;
+		}
+		bidib_flush(); cases++;
+		const uint8_t *e[3] = {exp[0], exp[1], exp[2]}; char what[140]; snprintf(what, sizeof what, "capacity %d, sends %d+%d, capacity %d, send %d", A, sz[0], sz[1], B, sz[2]);
+		int np = 0; if (!check_wire(e, el, 3, what, pk, 16, &np)) goto out;
+		int k = 0; for (int i = 0; i < np; i++) { int cum = 0; for (int j = 0; j < pk[i].nmsgs; j++, k++) { cum += pk[i].msgs[j].rawlen;
+			if (j >= 1 && cum > cap_at[k]) { res_violation("capacity-exceeded: a packet with several messages exceeds the capacity in force when it was filled", "%s: packet %d holds %d bytes after its message %d (capacity in force %d)", what, i, cum, j + 1, cap_at[k]); goto out; } }
+			hx_hash_add(&h, &pk[i].nmsgs, sizeof(int)); }
+	}
+out:
+	res_printf("O %llx %llx\nC shrink_cases %ld\n", (unsigned long long) h.a, (unsigned long long) h.b, cases);
+	res_finish();
+}
+static size_t shrink_gen(long idx, uint8_t *payload, char *human, size_t hn) { static const int CA[4] = {100, 128, 200, 255}; payload[0] = (uint8_t) idx; snprintf(human, hn, "capacity %d, first send %d bytes, then every second send x smaller capacity x third send", CA[idx % 4], SIZES[idx / 4]); return 1; }
+
 /* ---------------------------------------------------------------- c01.stage */
 static void stage_child(const void *job, size_t n) {
 	vs_dev_t devs[VS_MAXDEV]; int nd; size_t pl; const uint8_t *p = job_parse(job, n, devs, &nd, &pl);
@@ -271,7 +309,7 @@ static void sched_child(const void *job, size_t n) {
 
 void c01_register(void) {
 	harness_register("c01.bytes", bytes_child); harness_register("c01.batch", batch_child);
-	harness_register("c01.stage", stage_child); harness_register("c01.sched", sched_child);
+	harness_register("c01.stage", stage_child); harness_register("c01.shrink", shrink_child); harness_register("c01.sched", sched_child);
 }
 int c01_run(const char *tier) {
 	int thorough = !strcmp(tier, "thorough"); batch_thorough = thorough;
@@ -289,6 +327,10 @@ int c01_run(const char *tier) {
 	/* (c) */
 	ex_spec_t c = { .harness = "c01.stage", .ncases = 112, .gen = stage_gen, .label = "c01.stage" };
 	ex_map(&c); execs += c.done; transitions += c.done * 180; states += c.distinct_outcomes; if (!c.exhaustive) exhaustive = 0;
+	/* (d) the capacity shrinks while messages are batched */
+	ex_spec_t sh = { .harness = "c01.shrink", .ncases = 32, .gen = shrink_gen, .label = "c01.shrink" };
+	ex_map(&sh); execs += sh.done; transitions += rep_get("shrink_cases"); states += sh.distinct_outcomes; if (!sh.exhaustive) exhaustive = 0;
+	rep_note("c01.shrink: %ld histories capacity A, two sends, smaller capacity B, third send", rep_get("shrink_cases"));
 	/* E1 */
 	static const char *vn[] = {"senders+flush", "senders+flush+autoflush(early wake budget 2)", "senders+flush+receiver capacity change"};
 	for (int v = 0; v < 3; v++) {
